@@ -584,6 +584,12 @@ where
                     return Err(Error::OpenedDirAsFile);
                 }
 
+                if dir_entry.attributes.is_volume() {
+                    // The volume label lives in a directory entry, but it is
+                    // not a file: it must never get clusters or a length
+                    return Err(Error::Unsupported);
+                }
+
                 // Check it's not already open
                 if data.file_is_open(volume_id, &dir_entry) {
                     return Err(Error::FileAlreadyOpen);
@@ -678,6 +684,11 @@ where
 
         if dir_entry.attributes.is_directory() {
             return Err(Error::DeleteDirAsFile);
+        }
+
+        if dir_entry.attributes.is_volume() {
+            // the volume label is not a file
+            return Err(Error::Unsupported);
         }
 
         if data.file_is_open(dir_info.raw_volume, &dir_entry) {
